@@ -2,7 +2,7 @@
 C03 — Geometric stiffness is the Hessian of the pre-stress work
   ½ ∬ (Nxx w,x² + 2 Nxy w,x w,y + Nyy w,y²) dx dy   (constant resultants).
 Models regenerated from compmech/panel/models/*.pyx on every run.  The state-based (`fkG_num`)
-clauses are in the second part (numerical kernels).
+clauses are in the last part (numerical kernels `fkG_num`, regenerated from *_num.pyx).
 -/
 import CompmechVerif.Gen.Panel.Plate
 import CompmechVerif.Gen.Panel.PlateW
@@ -10,6 +10,12 @@ import CompmechVerif.Gen.Panel.CPanel
 import CompmechVerif.Gen.Panel.KPanel
 import CompmechVerif.Spec.Kinematics
 import CompmechVerif.Core.OpSpecTactics
+import CompmechVerif.Core.OpSpecLemmas
+import CompmechVerif.Core.NumSpec
+import CompmechVerif.Gen.PanelNum.Plate
+import CompmechVerif.Gen.PanelNum.CPanel
+import Mathlib.Tactic.Ring
+import Mathlib.Tactic.FieldSimp
 import Mathlib.Tactic.FinCases
 import Mathlib.Data.Fintype.Basic
 
@@ -56,5 +62,233 @@ theorem kG0_entry_kpanel (P : PCtx K) (ha : P.a ≠ 0) (hb : P.b ≠ 0) (ro co :
 theorem kG0y1y2_entry_kpanel (P : PCtx K) (ha : P.a ≠ 0) (hb : P.b ≠ 0) (ro co : Fin 3) :
     KPanel.fkG0y1y2.entry ro co P = hessian P .sub .sub (gradOps P) (prestressW P) (fld3 ro) (fld3 co) := by
   fin_cases ro <;> fin_cases co <;> entry_eq_form [gradOps, prestressW]
+
+
+/-! ### symmetric, out-of-plane only, linear in the three stress resultants (whole matrix) -/
+
+theorem kG0_symm_plate (P : PCtx K) (ha : P.a ≠ 0) (hb : P.b ≠ 0) (ro co : Fin 3) :
+    Plate.fkG0.entry ro co P = Plate.fkG0.entry co ro P.swap := by
+  rw [kG0_entry_plate P ha hb, kG0_entry_plate P.swap ha hb]
+  exact (hessian_swap P _ _ (gradOps P) (prestressW P) (prestressW_symm P) _ _).symm
+
+omit [CharZero K] in
+theorem kG0_linear_in_resultants_plate (P : PCtx K) (s n₁ n₂ n₃ m₁ m₂ m₃ : K) (ro co : Fin 3) :
+    Plate.fkG0.entry ro co { P with Nxx := s * n₁ + m₁, Nyy := s * n₂ + m₂, Nxy := s * n₃ + m₃ } =
+      s * Plate.fkG0.entry ro co { P with Nxx := n₁, Nyy := n₂, Nxy := n₃ }
+        + Plate.fkG0.entry ro co { P with Nxx := m₁, Nyy := m₂, Nxy := m₃ } := by
+  fin_cases ro <;> fin_cases co <;>
+    simp only [Fin.reduceFinMk, Fin.isValue, Fin.zero_eta, Fin.mk_one, panel_entry] <;> ring
+
+omit [CharZero K] in
+theorem kG0_touches_only_w_plate (P : PCtx K) (ro co : Fin 3) (h : ¬(ro = 2 ∧ co = 2)) :
+    Plate.fkG0.entry ro co P = 0 := by
+  fin_cases ro <;> fin_cases co <;> first | rfl | exact absurd ⟨rfl, rfl⟩ h
+
+theorem kG0y1y2_symm_plate (P : PCtx K) (ha : P.a ≠ 0) (hb : P.b ≠ 0) (ro co : Fin 3) :
+    Plate.fkG0y1y2.entry ro co P = Plate.fkG0y1y2.entry co ro P.swap := by
+  rw [kG0y1y2_entry_plate P ha hb, kG0y1y2_entry_plate P.swap ha hb]
+  exact (hessian_swap P _ _ (gradOps P) (prestressW P) (prestressW_symm P) _ _).symm
+
+omit [CharZero K] in
+theorem kG0y1y2_linear_in_resultants_plate (P : PCtx K) (s n₁ n₂ n₃ m₁ m₂ m₃ : K) (ro co : Fin 3) :
+    Plate.fkG0y1y2.entry ro co { P with Nxx := s * n₁ + m₁, Nyy := s * n₂ + m₂, Nxy := s * n₃ + m₃ } =
+      s * Plate.fkG0y1y2.entry ro co { P with Nxx := n₁, Nyy := n₂, Nxy := n₃ }
+        + Plate.fkG0y1y2.entry ro co { P with Nxx := m₁, Nyy := m₂, Nxy := m₃ } := by
+  fin_cases ro <;> fin_cases co <;>
+    simp only [Fin.reduceFinMk, Fin.isValue, Fin.zero_eta, Fin.mk_one, panel_entry] <;> ring
+
+omit [CharZero K] in
+theorem kG0y1y2_touches_only_w_plate (P : PCtx K) (ro co : Fin 3) (h : ¬(ro = 2 ∧ co = 2)) :
+    Plate.fkG0y1y2.entry ro co P = 0 := by
+  fin_cases ro <;> fin_cases co <;> first | rfl | exact absurd ⟨rfl, rfl⟩ h
+
+theorem kG0_symm_plate_w (P : PCtx K) (ha : P.a ≠ 0) (hb : P.b ≠ 0) (ro co : Fin 1) :
+    PlateW.fkG0.entry ro co P = PlateW.fkG0.entry co ro P.swap := by
+  rw [kG0_entry_plate_w P ha hb, kG0_entry_plate_w P.swap ha hb]
+  exact (hessian_swap P _ _ (gradOps P) (prestressW P) (prestressW_symm P) _ _).symm
+
+omit [CharZero K] in
+theorem kG0_linear_in_resultants_plate_w (P : PCtx K) (s n₁ n₂ n₃ m₁ m₂ m₃ : K) (ro co : Fin 1) :
+    PlateW.fkG0.entry ro co { P with Nxx := s * n₁ + m₁, Nyy := s * n₂ + m₂, Nxy := s * n₃ + m₃ } =
+      s * PlateW.fkG0.entry ro co { P with Nxx := n₁, Nyy := n₂, Nxy := n₃ }
+        + PlateW.fkG0.entry ro co { P with Nxx := m₁, Nyy := m₂, Nxy := m₃ } := by
+  fin_cases ro <;> fin_cases co <;>
+    simp only [Fin.reduceFinMk, Fin.isValue, Fin.zero_eta, Fin.mk_one, panel_entry] <;> ring
+
+theorem kG0y1y2_symm_plate_w (P : PCtx K) (ha : P.a ≠ 0) (hb : P.b ≠ 0) (ro co : Fin 1) :
+    PlateW.fkG0y1y2.entry ro co P = PlateW.fkG0y1y2.entry co ro P.swap := by
+  rw [kG0y1y2_entry_plate_w P ha hb, kG0y1y2_entry_plate_w P.swap ha hb]
+  exact (hessian_swap P _ _ (gradOps P) (prestressW P) (prestressW_symm P) _ _).symm
+
+omit [CharZero K] in
+theorem kG0y1y2_linear_in_resultants_plate_w (P : PCtx K) (s n₁ n₂ n₃ m₁ m₂ m₃ : K) (ro co : Fin 1) :
+    PlateW.fkG0y1y2.entry ro co { P with Nxx := s * n₁ + m₁, Nyy := s * n₂ + m₂, Nxy := s * n₃ + m₃ } =
+      s * PlateW.fkG0y1y2.entry ro co { P with Nxx := n₁, Nyy := n₂, Nxy := n₃ }
+        + PlateW.fkG0y1y2.entry ro co { P with Nxx := m₁, Nyy := m₂, Nxy := m₃ } := by
+  fin_cases ro <;> fin_cases co <;>
+    simp only [Fin.reduceFinMk, Fin.isValue, Fin.zero_eta, Fin.mk_one, panel_entry] <;> ring
+
+theorem kG0_symm_cpanel (P : PCtx K) (ha : P.a ≠ 0) (hb : P.b ≠ 0) (ro co : Fin 3) :
+    CPanel.fkG0.entry ro co P = CPanel.fkG0.entry co ro P.swap := by
+  rw [kG0_entry_cpanel P ha hb, kG0_entry_cpanel P.swap ha hb]
+  exact (hessian_swap P _ _ (gradOps P) (prestressW P) (prestressW_symm P) _ _).symm
+
+omit [CharZero K] in
+theorem kG0_linear_in_resultants_cpanel (P : PCtx K) (s n₁ n₂ n₃ m₁ m₂ m₃ : K) (ro co : Fin 3) :
+    CPanel.fkG0.entry ro co { P with Nxx := s * n₁ + m₁, Nyy := s * n₂ + m₂, Nxy := s * n₃ + m₃ } =
+      s * CPanel.fkG0.entry ro co { P with Nxx := n₁, Nyy := n₂, Nxy := n₃ }
+        + CPanel.fkG0.entry ro co { P with Nxx := m₁, Nyy := m₂, Nxy := m₃ } := by
+  fin_cases ro <;> fin_cases co <;>
+    simp only [Fin.reduceFinMk, Fin.isValue, Fin.zero_eta, Fin.mk_one, panel_entry] <;> ring
+
+omit [CharZero K] in
+theorem kG0_touches_only_w_cpanel (P : PCtx K) (ro co : Fin 3) (h : ¬(ro = 2 ∧ co = 2)) :
+    CPanel.fkG0.entry ro co P = 0 := by
+  fin_cases ro <;> fin_cases co <;> first | rfl | exact absurd ⟨rfl, rfl⟩ h
+
+theorem kG0y1y2_symm_cpanel (P : PCtx K) (ha : P.a ≠ 0) (hb : P.b ≠ 0) (ro co : Fin 3) :
+    CPanel.fkG0y1y2.entry ro co P = CPanel.fkG0y1y2.entry co ro P.swap := by
+  rw [kG0y1y2_entry_cpanel P ha hb, kG0y1y2_entry_cpanel P.swap ha hb]
+  exact (hessian_swap P _ _ (gradOps P) (prestressW P) (prestressW_symm P) _ _).symm
+
+omit [CharZero K] in
+theorem kG0y1y2_linear_in_resultants_cpanel (P : PCtx K) (s n₁ n₂ n₃ m₁ m₂ m₃ : K) (ro co : Fin 3) :
+    CPanel.fkG0y1y2.entry ro co { P with Nxx := s * n₁ + m₁, Nyy := s * n₂ + m₂, Nxy := s * n₃ + m₃ } =
+      s * CPanel.fkG0y1y2.entry ro co { P with Nxx := n₁, Nyy := n₂, Nxy := n₃ }
+        + CPanel.fkG0y1y2.entry ro co { P with Nxx := m₁, Nyy := m₂, Nxy := m₃ } := by
+  fin_cases ro <;> fin_cases co <;>
+    simp only [Fin.reduceFinMk, Fin.isValue, Fin.zero_eta, Fin.mk_one, panel_entry] <;> ring
+
+omit [CharZero K] in
+theorem kG0y1y2_touches_only_w_cpanel (P : PCtx K) (ro co : Fin 3) (h : ¬(ro = 2 ∧ co = 2)) :
+    CPanel.fkG0y1y2.entry ro co P = 0 := by
+  fin_cases ro <;> fin_cases co <;> first | rfl | exact absurd ⟨rfl, rfl⟩ h
+
+theorem kG0_symm_kpanel (P : PCtx K) (ha : P.a ≠ 0) (hb : P.b ≠ 0) (ro co : Fin 3) :
+    KPanel.fkG0.entry ro co P = KPanel.fkG0.entry co ro P.swap := by
+  rw [kG0_entry_kpanel P ha hb, kG0_entry_kpanel P.swap ha hb]
+  exact (hessian_swap P _ _ (gradOps P) (prestressW P) (prestressW_symm P) _ _).symm
+
+omit [CharZero K] in
+theorem kG0_linear_in_resultants_kpanel (P : PCtx K) (s n₁ n₂ n₃ m₁ m₂ m₃ : K) (ro co : Fin 3) :
+    KPanel.fkG0.entry ro co { P with Nxx := s * n₁ + m₁, Nyy := s * n₂ + m₂, Nxy := s * n₃ + m₃ } =
+      s * KPanel.fkG0.entry ro co { P with Nxx := n₁, Nyy := n₂, Nxy := n₃ }
+        + KPanel.fkG0.entry ro co { P with Nxx := m₁, Nyy := m₂, Nxy := m₃ } := by
+  fin_cases ro <;> fin_cases co <;>
+    simp only [Fin.reduceFinMk, Fin.isValue, Fin.zero_eta, Fin.mk_one, panel_entry] <;> ring
+
+omit [CharZero K] in
+theorem kG0_touches_only_w_kpanel (P : PCtx K) (ro co : Fin 3) (h : ¬(ro = 2 ∧ co = 2)) :
+    KPanel.fkG0.entry ro co P = 0 := by
+  fin_cases ro <;> fin_cases co <;> first | rfl | exact absurd ⟨rfl, rfl⟩ h
+
+theorem kG0y1y2_symm_kpanel (P : PCtx K) (ha : P.a ≠ 0) (hb : P.b ≠ 0) (ro co : Fin 3) :
+    KPanel.fkG0y1y2.entry ro co P = KPanel.fkG0y1y2.entry co ro P.swap := by
+  rw [kG0y1y2_entry_kpanel P ha hb, kG0y1y2_entry_kpanel P.swap ha hb]
+  exact (hessian_swap P _ _ (gradOps P) (prestressW P) (prestressW_symm P) _ _).symm
+
+omit [CharZero K] in
+theorem kG0y1y2_linear_in_resultants_kpanel (P : PCtx K) (s n₁ n₂ n₃ m₁ m₂ m₃ : K) (ro co : Fin 3) :
+    KPanel.fkG0y1y2.entry ro co { P with Nxx := s * n₁ + m₁, Nyy := s * n₂ + m₂, Nxy := s * n₃ + m₃ } =
+      s * KPanel.fkG0y1y2.entry ro co { P with Nxx := n₁, Nyy := n₂, Nxy := n₃ }
+        + KPanel.fkG0y1y2.entry ro co { P with Nxx := m₁, Nyy := m₂, Nxy := m₃ } := by
+  fin_cases ro <;> fin_cases co <;>
+    simp only [Fin.reduceFinMk, Fin.isValue, Fin.zero_eta, Fin.mk_one, panel_entry] <;> ring
+
+omit [CharZero K] in
+theorem kG0y1y2_touches_only_w_kpanel (P : PCtx K) (ro co : Fin 3) (h : ¬(ro = 2 ∧ co = 2)) :
+    KPanel.fkG0y1y2.entry ro co P = 0 := by
+  fin_cases ro <;> fin_cases co <;> first | rfl | exact absurd ⟨rfl, rfl⟩ h
+
+/-! ### the state-based variant `fkG_num` (one integration point)
+
+`X` is the context of one Gauss point: basis values `X.E`, the amplitudes `X.c` of the degree of freedom being summed
+into the state, the accumulated strains `X.exx … X.kxy`, slopes `X.wxi, X.weta`, resultants `X.Nxx, X.Nyy, X.Nxy`. -/
+
+/-- every degree of freedom contributes to the strain state of the point its amplitude times the Donnell
+strain-displacement operator (the SAME operator table that defines the energy in C02) applied to its basis function -/
+theorem kG_num_strains_are_donnell_plate (X : NCtx K) (ha : X.a ≠ 0) (hb : X.b ≠ 0) (p : Fin 6) :
+    (match p with
+      | 0 => PanelNum.Plate.fkG_num.inc_exx X | 1 => PanelNum.Plate.fkG_num.inc_eyy X
+      | 2 => PanelNum.Plate.fkG_num.inc_gxy X | 3 => PanelNum.Plate.fkG_num.inc_kxx X
+      | 4 => PanelNum.Plate.fkG_num.inc_kyy X | 5 => PanelNum.Plate.fkG_num.inc_kxy X) =
+      X.c .u * dofB X (plateOps X.toP) .A .u p + X.c .v * dofB X (plateOps X.toP) .A .v p
+        + X.c .w * dofB X (plateOps X.toP) .A .w p := by
+  fin_cases p <;>
+    simp only [Fin.reduceFinMk, Fin.isValue, Fin.zero_eta, Fin.mk_one, panel_entry, NCtx.toP, dofB, plateOps, List.map,
+      List.sum_cons, List.sum_nil] <;> field_simp <;> ring
+
+/-- with `NLgeom` the membrane strains gain Donnell's `½ w,x²`, `½ w,y²`, `w,x w,y` of the whole series -/
+theorem kG_num_quadratic_terms_plate (X : NCtx K) (ha : X.a ≠ 0) (hb : X.b ≠ 0) :
+    PanelNum.Plate.fkG_num.add_exx X = 1 / 2 * (2 / X.a * X.wxi) ^ 2 ∧
+    PanelNum.Plate.fkG_num.add_eyy X = 1 / 2 * (2 / X.b * X.weta) ^ 2 ∧
+    PanelNum.Plate.fkG_num.add_gxy X = (2 / X.a * X.wxi) * (2 / X.b * X.weta) := by
+  refine ⟨?_, ?_, ?_⟩ <;> simp only [panel_entry] <;> field_simp <;> ring
+
+omit [CharZero K] in
+/-- the resultants used at the point are `N = A ε + B κ` of that state -/
+theorem kG_num_resultants_plate (X : NCtx K) (hF : IsABD X.F) :
+    PanelNum.Plate.fkG_num.def_Nxx X = ((List.finRange 6).map fun q => X.F 0 q * X.eps q).sum ∧
+    PanelNum.Plate.fkG_num.def_Nyy X = ((List.finRange 6).map fun q => X.F 1 q * X.eps q).sum ∧
+    PanelNum.Plate.fkG_num.def_Nxy X = ((List.finRange 6).map fun q => X.F 2 q * X.eps q).sum := by
+  have h10 := hF.symm 1 0
+  have h20 := hF.symm 2 0
+  have h21 := hF.symm 2 1
+  refine ⟨?_, ?_, ?_⟩ <;>
+    simp only [panel_entry, NCtx.eps, List.finRange, List.ofFn, Fin.foldr, Fin.foldr.loop, List.map, List.sum_cons,
+      List.sum_nil] <;> simp [h10, h20, h21, hF.b12, hF.b16, hF.b26] <;> ring
+
+/-- the integrand added at a point is the weight times the CONSTANT-LOAD kernel's entry read on the point values with the
+resultants of that point: a state whose membrane resultants are the same `N₀` at every integration point therefore
+gives the quadrature of `fkG0(N₀)` (exact for the Gauss orders of C10), and a per-point laminate table equal to the uniform
+laminate enters only through `X.F` in `kG_num_resultants`, i.e. changes nothing -/
+theorem kG_num_eq_kG0_on_point_plate (X : NCtx K) (ha : X.a ≠ 0) (hb : X.b ≠ 0) (ro co : Fin 3) :
+    PanelNum.Plate.fkG_num.entry ro co X = X.weight * Gen.Plate.fkG0.entry ro co X.toP := by
+  fin_cases ro <;> fin_cases co <;>
+    simp only [Fin.reduceFinMk, Fin.isValue, Fin.zero_eta, Fin.mk_one, panel_entry, NCtx.toP] <;>
+    first | ring | (field_simp; ring) | simp
+
+/-- every degree of freedom contributes to the strain state of the point its amplitude times the Donnell
+strain-displacement operator (the SAME operator table that defines the energy in C02) applied to its basis function -/
+theorem kG_num_strains_are_donnell_cpanel (X : NCtx K) (ha : X.a ≠ 0) (hb : X.b ≠ 0) (hr : X.r ≠ 0) (p : Fin 6) :
+    (match p with
+      | 0 => PanelNum.CPanel.fkG_num.inc_exx X | 1 => PanelNum.CPanel.fkG_num.inc_eyy X
+      | 2 => PanelNum.CPanel.fkG_num.inc_gxy X | 3 => PanelNum.CPanel.fkG_num.inc_kxx X
+      | 4 => PanelNum.CPanel.fkG_num.inc_kyy X | 5 => PanelNum.CPanel.fkG_num.inc_kxy X) =
+      X.c .u * dofB X (cpanelOps X.toP) .A .u p + X.c .v * dofB X (cpanelOps X.toP) .A .v p
+        + X.c .w * dofB X (cpanelOps X.toP) .A .w p := by
+  fin_cases p <;>
+    simp only [Fin.reduceFinMk, Fin.isValue, Fin.zero_eta, Fin.mk_one, panel_entry, NCtx.toP, dofB, cpanelOps, plateOps, List.map,
+      List.sum_cons, List.sum_nil] <;> field_simp <;> ring
+
+/-- with `NLgeom` the membrane strains gain Donnell's `½ w,x²`, `½ w,y²`, `w,x w,y` of the whole series -/
+theorem kG_num_quadratic_terms_cpanel (X : NCtx K) (ha : X.a ≠ 0) (hb : X.b ≠ 0) :
+    PanelNum.CPanel.fkG_num.add_exx X = 1 / 2 * (2 / X.a * X.wxi) ^ 2 ∧
+    PanelNum.CPanel.fkG_num.add_eyy X = 1 / 2 * (2 / X.b * X.weta) ^ 2 ∧
+    PanelNum.CPanel.fkG_num.add_gxy X = (2 / X.a * X.wxi) * (2 / X.b * X.weta) := by
+  refine ⟨?_, ?_, ?_⟩ <;> simp only [panel_entry] <;> field_simp <;> ring
+
+omit [CharZero K] in
+/-- the resultants used at the point are `N = A ε + B κ` of that state -/
+theorem kG_num_resultants_cpanel (X : NCtx K) (hF : IsABD X.F) :
+    PanelNum.CPanel.fkG_num.def_Nxx X = ((List.finRange 6).map fun q => X.F 0 q * X.eps q).sum ∧
+    PanelNum.CPanel.fkG_num.def_Nyy X = ((List.finRange 6).map fun q => X.F 1 q * X.eps q).sum ∧
+    PanelNum.CPanel.fkG_num.def_Nxy X = ((List.finRange 6).map fun q => X.F 2 q * X.eps q).sum := by
+  have h10 := hF.symm 1 0
+  have h20 := hF.symm 2 0
+  have h21 := hF.symm 2 1
+  refine ⟨?_, ?_, ?_⟩ <;>
+    simp only [panel_entry, NCtx.eps, List.finRange, List.ofFn, Fin.foldr, Fin.foldr.loop, List.map, List.sum_cons,
+      List.sum_nil] <;> simp [h10, h20, h21, hF.b12, hF.b16, hF.b26] <;> ring
+
+/-- the integrand added at a point is the weight times the CONSTANT-LOAD kernel's entry read on the point values with the
+resultants of that point: a state whose membrane resultants are the same `N₀` at every integration point therefore
+gives the quadrature of `fkG0(N₀)` (exact for the Gauss orders of C10), and a per-point laminate table equal to the uniform
+laminate enters only through `X.F` in `kG_num_resultants`, i.e. changes nothing -/
+theorem kG_num_eq_kG0_on_point_cpanel (X : NCtx K) (ha : X.a ≠ 0) (hb : X.b ≠ 0) (ro co : Fin 3) :
+    PanelNum.CPanel.fkG_num.entry ro co X = X.weight * Gen.CPanel.fkG0.entry ro co X.toP := by
+  fin_cases ro <;> fin_cases co <;>
+    simp only [Fin.reduceFinMk, Fin.isValue, Fin.zero_eta, Fin.mk_one, panel_entry, NCtx.toP] <;>
+    first | ring | (field_simp; ring) | simp
 
 end Compmech.Panel.C03
